@@ -154,6 +154,12 @@ def tr_pairs(n):
     return {"module": "Trace_Pairs", "cfg": "Trace_Pairs.cfg", "family": "pairs", "args": {"n": n}, "timeout": 3600}
 
 
+# one P-square step at a time: the marker state of the real Quantile before / after every add of long streams,
+# decided by TLC with Quantile.tla's Step over unbounded rationals (QuantileBig.tla, checked against Quantile.tla)
+TR_QSTEP = {"module": "Trace_QStep", "cfg": "Trace_QStep.cfg", "family": "qstep", "args": {"n": ("150", "800")}, "timeout": 3600}
+MC_QBIG = {"module": "MC_QuantileBig", "cfg": "MC_QuantileBig.cfg", "workers": 4, "timeout": 3600}
+
+
 # soundness of the unbounded arithmetic: TLA+ definitions vs TLC integers, Java overrides vs TLA+
 # definitions, power-sum statistics vs Exact.tla
 MC_BIG = {"module": "MC_Big", "cfg": "MC_Big.cfg", "workers": 1}
@@ -338,16 +344,16 @@ PROPS = {
         "assumptions": ["-0.0 and 0.0 are the same number (the property says 'as numbers')"],
     },
     "C05": {
-        "level_text": 'Quantile.tla (exact-rational P-square, one action per observation, boxes B1-B3 as operators) model-checked for the marker invariants; every stream of the bounded alphabet replayed step by step with positions/desired positions exact and heights within rounding (tie rule); long streams validated by TLC against the position skeleton (PosStep, proved equal to the full step by SkeletonIsStep); the specification Step in f64 (qref), cross-checked against the exact specification on every generated step, run side by side with the real estimator on continuous streams of 5,000 (thorough 100,000) observations: positions, desired positions, heights',
-        "technique": 'TLC model checking of Quantile.tla + step-wise replay + TLC trace validation of recorded long runs + long-stream comparison with the specification Step in f64 (qref, cross-checked per generated step)',
+        "level_text": 'Quantile.tla (exact-rational P-square, one action per observation, boxes B1-B3 as operators) model-checked for the marker invariants; every stream of the bounded alphabet replayed step by step with positions/desired positions exact and heights within rounding (tie rule); long streams validated by TLC against the position skeleton (PosStep, proved equal to the full step by SkeletonIsStep); the specification Step in f64 (qref), cross-checked against the exact specification on every generated step, run side by side with the real estimator on continuous streams of 5,000 (thorough 100,000) observations: positions, desired positions, heights; one-step conformance on long recorded streams: TLC applies the Step of Quantile.tla over unbounded rationals (QuantileBig.tla, model-checked equal to it) to the real marker state before every add and requires the real state after it (positions exactly, heights within 32 ulp, either branch of the parabolic acceptance test only within rounding of a tie)',
+        "technique": 'TLC model checking of Quantile.tla + step-wise replay + TLC trace validation of recorded long runs + long-stream comparison with the specification Step in f64 (qref, cross-checked per generated step) + TLC one-step trace validation in exact arithmetic (Trace_QStep.tla)',
         "title": "Quantile follows the P-square algorithm exactly once five observations are in",
-        "mc": [MC_Q],
+        "mc": [MC_BIG, MC_QBIG, MC_Q],
         "replay": [gen_q("big", "E0,E3,E5,E12,E13", maxlen=("7", "8")),
                    gen_q("big", "E0,E5", maxlen=("12", "13"), alphabet="GenAlphabet01"),
                    {**gen_q("big", "E0", maxlen="9", alphabet="GenAlphabet012"), "skip": (True, False)},
                    {**gen_q("big", "E0", maxlen=("6", "7"), alphabet="GenAlphabetB", pset="GenPSetMore"), "skip": (True, False)},
                    {**gen_q("big", "E0", maxlen=("6", "7"), alphabet="GenAlphabetC"), "skip": (True, False)}],
-        "trace": [TR_Q],
+        "trace": [TR_QSTEP, TR_Q],
         "direct": [{"cmd": "direct", "family": "qlong", "args": {"max_n": ("5000", "100000")}}],
         "rule": "every stream over {0,1,2,3} (ties everywhere) of length 5..L for p in {0,1/4,1/2,3/4,1}: positions and desired "
                 "positions exactly, heights and quantile() within 64*n*2^-53*max|x| of the exact-rational P-square run, tie rule of "
@@ -373,9 +379,9 @@ PROPS = {
         "level_text": 'MarkersWellFormed / InRange / OneStepMoves of Quantile.tla; every enumerated stream checked after every observation; C15 flags logged at every step of long runs and required by Trace_Quantile; invalid p must panic',
         "technique": 'TLC invariants of Quantile.tla + replay + TLC trace validation',
         "title": "quantile estimates stay inside the data range and bookkeeping is exact",
-        "mc": [MC_Q, MC_QS],
+        "mc": [MC_BIG, MC_QBIG, MC_Q, MC_QS],
         "replay": [gen_q("big", "E0,E3,E15", maxlen=("7", "8")), gen_q("big", "E0", maxlen=("12", "13"), alphabet="GenAlphabet01"), gen_q("small", "E0,E11,E15")],
-        "trace": [TR_Q],
+        "trace": [TR_QSTEP, TR_Q],
         "rule": "len/is_empty/p()/NaN-only-when-empty/range/marker order after every observation of every enumerated stream and of "
                 "long recorded streams (validated by TLC as trace invariants); Quantile::new must panic for seven invalid p",
         "bounds": {"quick": "L <= 7; traces of 1,000", "thorough": "L <= 8; traces of 20,000"},
